@@ -412,8 +412,9 @@ class AssociationSocket:
             # Try and connect to remote at (address, port)
             #   raises OSError if connection refused
             self.socket.connect(primitive.address_info.as_tuple)
-            # Clear ae connection timeout
-            self.socket.settimeout(None)
+            # Replace the ae connection timeout with the network timeout so
+            #   recv() can't block forever if the peer stops sending mid-PDU
+            self.socket.settimeout(self.assoc.network_timeout)
 
             # Update the Association.requestor's host and port with the actual values
             conn_info = self.socket.getsockname()
@@ -747,6 +748,11 @@ class RequestHandler(BaseRequestHandler):
         # Set the thread name
         timestamp = datetime.strftime(datetime.now(), "%Y%m%d%H%M%S")
         assoc.name = f"AcceptorThread@{timestamp}"
+
+        # If no timeout is set then recv() will block forever if
+        #   the connection is kept alive with no data sent
+        if self.ae.network_timeout is not None:
+            self.request.settimeout(self.ae.network_timeout)
 
         sock = AssociationSocket(assoc, client_socket=self.request)
         assoc.set_socket(sock)
